@@ -173,43 +173,53 @@ def callType (ty : PyType) (s : Str) : Except Err (Val F) :=
   | .bool => .ok (.bool (!s.isEmpty))
   | _ => .error .typeError
 
+/-- `if text:` — `None` and the empty string are skipped -/
+def nonEmpty (o : Option Str) : Option Str :=
+  match o with
+  | some s => if s.isEmpty then none else some s
+  | none => none
+
+/-- `[in_coercer(a) for a in allowed_values]` when the list is non-empty (strict mode only) -/
+def schemaAllowed (inC : Str → Except Err (Val F)) (strict : Bool) (a : Option (List Str)) :
+    Except Err (Option (List (Val F))) :=
+  if strict then
+    match a with
+    | some (x :: l) => optM (mapM' inC) (some (x :: l))
+    | _ => .ok none
+  else .ok none
+
+/-- `min_ = in_coercer(min_) if min_ else None`, same for `max_` (strict mode only) -/
+def schemaRange (inC : Str → Except Err (Val F)) (strict : Bool) (r : Option (Option Str × Option Str)) :
+    Except Err (Option (Val F) × Option (Val F)) :=
+  if strict then
+    match r with
+    | some (mn, mx) => match optM inC (nonEmpty mn) with
+        | .ok a => match optM inC (nonEmpty mx) with
+            | .ok b => .ok (a, b)
+            | .error e => .error e
+        | .error e => .error e
+    | none => .ok (none, none)
+  else .ok (none, none)
+
+/-- conversion of a non-empty `defaultValue` (result unused, exceptions propagate) -/
+def schemaDefault (tb : Table) (row : TypeRow) (d : Option Str) : Except Err Unit :=
+  match nonEmpty d with
+  | some s =>
+      if row.ty == .bool then .ok ()
+      else match (if tb.defaultViaIn then coercePython fo tb row s else callType fo row.ty s) with
+        | .ok _ => .ok ()
+        | .error e => .error e
+  | none => .ok ()
+
 /-- the schema, or the exception that leaves `_state_variable_create_schema` -/
 def mkSchema (tb : Table) (row : TypeRow) (strict : Bool) (d : Decl) : Except Err (Schema F) :=
-  let inC := coercePython fo tb row
-  let nonEmpty (o : Option Str) : Option Str := match o with
-    | some s => if s.isEmpty then none else some s
-    | none => none
-  let allowedE : Except Err (Option (List (Val F))) :=
-    if strict then
-      match d.allowed with
-      | some (a :: l) => optM (mapM' inC) (some (a :: l))
-      | _ => .ok none
-    else .ok none
-  match allowedE with
+  match schemaAllowed (coercePython fo tb row) strict d.allowed with
   | .error e => .error e
   | .ok allowed =>
-    let rangeE : Except Err (Option (Val F) × Option (Val F)) :=
-      if strict then
-        match d.range with
-        | some (mn, mx) => match optM inC (nonEmpty mn) with
-            | .ok a => match optM inC (nonEmpty mx) with
-                | .ok b => .ok (a, b)
-                | .error e => .error e
-            | .error e => .error e
-        | none => .ok (none, none)
-      else .ok (none, none)
-    match rangeE with
+    match schemaRange (coercePython fo tb row) strict d.range with
     | .error e => .error e
     | .ok (mn, mx) =>
-      let defE : Except Err Unit :=
-        match nonEmpty d.default with
-        | some s =>
-            if row.ty == .bool then .ok ()
-            else match (if tb.defaultViaIn then inC s else callType fo row.ty s) with
-              | .ok _ => .ok ()
-              | .error e => .error e
-        | none => .ok ()
-      match defE with
+      match schemaDefault fo tb row d.default with
       | .error e => .error e
       | .ok () => .ok { ty := row.ty, requireTz := row.requireTz, allowed := allowed, min := mn, max := mx }
 
